@@ -327,6 +327,60 @@ func runC31(w *World, r *Report) {
 		})
 	}
 
+	// ---- R-C31-5: a write request always stores (both siblings)
+	r.Rule("R-C31-5", "sibling agreement on WriteUser: every path from entry to a return performs the store (file: the map update; database: Update or Insert) — neither store may decide by itself that a write is not needed", 2)
+
+	for _, fn := range fileFns {
+		if fn.Name() != "WriteUser" || fn.Signature.Recv() == nil {
+			continue
+		}
+
+		key := fnKey(fn) + "|always stores"
+		exit := pathFromEntryAvoiding(fn, nil, func(i ssa.Instruction) bool {
+			mu, ok := i.(*ssa.MapUpdate)
+
+			return ok && isDataLoad(mu.Map)
+		}, func(i ssa.Instruction) bool {
+			_, isRet := i.(*ssa.Return)
+
+			return isRet
+		})
+
+		if exit != nil {
+			r.Violate("R-C31-5", key, w.pos(exit.Pos()), "the file store can return from WriteUser without replacing the entry (and without marking itself dirty): the database store always issues the write, so the two disagree whenever the skipped write mattered — and the records the file store hands out share their permission slices with the stored entry, so 'unchanged' cannot be decided by comparing them")
+		} else {
+			r.Discharge("R-C31-5", key, w.pos(fn.Pos()), "map update on every path")
+		}
+	}
+
+	for _, fn := range dbFns {
+		if fn.Name() != "WriteUser" || fn.Signature.Recv() == nil {
+			continue
+		}
+
+		key := fnKey(fn) + "|always stores"
+		exit := pathFromEntryAvoiding(fn, nil, func(i ssa.Instruction) bool {
+			c, ok := i.(*ssa.Call)
+			if !ok {
+				return false
+			}
+
+			id := callID(c.Common())
+
+			return id == "internal/resources.ResHandle.Update" || id == "internal/resources.ResHandle.Insert"
+		}, func(i ssa.Instruction) bool {
+			_, isRet := i.(*ssa.Return)
+
+			return isRet
+		})
+
+		if exit != nil {
+			r.Violate("R-C31-5", key, w.pos(exit.Pos()), "the database store can return from WriteUser without an Update or Insert")
+		} else {
+			r.Discharge("R-C31-5", key, w.pos(fn.Pos()), "Update or Insert on every path")
+		}
+	}
+
 	// ---- R-C31-4
 	masks := map[string]string{}
 
